@@ -49,6 +49,8 @@ def load_vocab():
 # ---------------------------------------------------------------------------------------------- purity
 
 _IMPURE_UN = ('++', '--', 'post++', 'post--')
+_PURE_STD = ('empty', 'size', 'length', 'front', 'back', 'at', 'count', 'load', 'operator bool', 'test', 'any', 'none', 'all',
+             'has_value', 'value', 'get', 'c_str', 'data')
 _PURE_OPCALL = ('[]', '->', '*', '==', '!=', '<', '>', '<=', '>=', '!', '&', '|', '^', '~', '+', '-')
 
 
@@ -61,6 +63,8 @@ def is_pure(e):
                 continue
             return False
         if k == 'call':
+            if n.get('name') in _PURE_STD and (str(n.get('cls', '')).startswith('std::') or str(n.get('fn', '')).startswith('std::')):
+                continue
             return False
         if k == 'opcall' and n.get('op') not in _PURE_OPCALL:
             return False
@@ -574,6 +578,210 @@ def _replace_refs(node, key, init):
             _replace_refs(v, key, init)
 
 
+# ---------------------------------------------------------------------------------------------- loop form
+
+def while_to_for(f):
+    """`while (c) { body; ++v; }` with v tested in c and no `continue` in body is `for (; c; ++v) { body }`"""
+    body = f.get('body')
+    if not isinstance(body, dict):
+        return False
+    changed = False
+    for n in list(walk(body)):
+        if n.get('k') != 'while':
+            continue
+        b = n.get('body')
+        stmts = _stmts(b)
+        if len(stmts) < 1:
+            continue
+        last = stmts[-1]
+        tgt = None
+        if last.get('k') == 'un' and last.get('op') in _IMPURE_UN:
+            tgt = _strip(last.get('e'))
+        elif last.get('k') == 'assign' and last.get('op') in ('+=', '-='):
+            tgt = _strip(last.get('lhs'))
+        if not (isinstance(tgt, dict) and tgt.get('k') == 'ref' and tgt.get('dk') == 'local'):
+            continue
+        key = (tgt.get('name'), tgt.get('dl'))
+        if not any(x.get('k') == 'ref' and (x.get('name'), x.get('dl')) == key for x in walk(n.get('cond'))):
+            continue
+        inner = stmts[:-1]
+        if any(x.get('k') == 'continue' for s_ in inner for x in _walk_same_loop(s_)):
+            continue
+        # v must not be written elsewhere in the body
+        if any(_writes_local(x, key) for s_ in inner for x in walk(s_)):
+            continue
+        n['k'] = 'for'
+        n['init'] = None
+        n['inc'] = last
+        n['body'] = {'k': 'block', 'l': b.get('l') if isinstance(b, dict) else n.get('l'), 'body': inner}
+        changed = True
+    return changed
+
+
+def _walk_same_loop(s):
+    """nodes of s that belong to the same loop level (does not descend into nested loops)"""
+    yield s
+    if s.get('k') in ('for', 'while', 'do', 'rangefor', 'lambda'):
+        return
+    for c in children(s):
+        yield from _walk_same_loop(c)
+
+
+def _writes_local(n, key):
+    t = None
+    if n.get('k') == 'assign':
+        t = _strip(n.get('lhs'))
+    elif n.get('k') == 'un' and n.get('op') in _IMPURE_UN + ('&',):
+        t = _strip(n.get('e'))
+    return isinstance(t, dict) and t.get('k') == 'ref' and (t.get('name'), t.get('dl')) == key
+
+
+def index_to_rangefor(f, R=None):
+    """`for (i = 0; i < C.size(); ++i) { ... C[i] ... }` where i is used for nothing but C[i] is `for (auto& e : C)`"""
+    from .loops import loop_range
+    from .norm import Renderer
+    body = f.get('body')
+    if not isinstance(body, dict):
+        return False
+    changed = False
+    r = None
+    SHRINK = ('pop_back', 'clear', 'erase', 'resize', 'pop', 'pop_front')
+    for n in list(walk(body)):
+        if n.get('k') != 'for':
+            continue
+        inc = _strip(n.get('inc'))
+        if not (isinstance(inc, dict) and inc.get('k') == 'un' and inc.get('op') in ('++', 'post++')):
+            continue
+        v = _strip(inc.get('e'))
+        if not (isinstance(v, dict) and v.get('k') == 'ref' and v.get('dk') == 'local'):
+            continue
+        key = (v.get('name'), v.get('dl'))
+        decl = [x for x in walk(n.get('init') or {}) if x.get('k') == 'var' and (x.get('name'), x.get('dl')) == key]
+        if len(decl) != 1 or 'init' not in decl[0] or not _is_zero(decl[0]['init']):
+            continue
+        c = _strip(n.get('cond'))
+        if not (isinstance(c, dict) and c.get('k') == 'bin' and c.get('op') in ('<', '!=', '>')):
+            continue
+        a, b = (c['lhs'], c['rhs']) if c['op'] != '>' else (c['rhs'], c['lhs'])
+        a2, b2 = _strip(a), _strip(b)
+        if not (isinstance(a2, dict) and a2.get('k') == 'ref' and (a2.get('name'), a2.get('dl')) == key):
+            continue
+        if not (isinstance(b2, dict) and b2.get('k') == 'call' and b2.get('name') == 'size' and b2.get('obj') is not None
+                and not b2.get('args') and is_pure(b2['obj'])):
+            continue
+        cont = b2['obj']
+        r = r or Renderer(None, inline_locals=False)
+        ct = r.r(cont)
+        # every use of i in the body is C[i]; C is not shrunk or reassigned in the body
+        uses = []
+        ok = True
+
+        def scan(x, parent):
+            nonlocal ok
+            if not isinstance(x, dict):
+                return
+            if x.get('k') == 'ref' and (x.get('name'), x.get('dl')) == key:
+                good = isinstance(parent, dict) and ((parent.get('k') == 'opcall' and parent.get('op') == '[]' and len(parent.get('args', [])) == 2
+                                                     and _strip(parent['args'][1]) is x and r.r(parent['args'][0]) == ct)
+                                                    or (parent.get('k') == 'call' and parent.get('name') == 'at' and parent.get('obj') is not None
+                                                        and r.r(parent['obj']) == ct and len(parent.get('args', [])) == 1 and _strip(parent['args'][0]) is x))
+                if not good:
+                    ok = False
+                else:
+                    uses.append(parent)
+                return
+            if x.get('k') == 'call' and x.get('name') in SHRINK and x.get('obj') is not None and r.r(x['obj']) == ct:
+                ok = False
+            if x.get('k') == 'lambda':
+                ok = False
+            if x.get('k') == 'cast':
+                scan(x.get('e'), parent)
+                return
+            for ch in children(x):
+                scan(ch, x)
+        scan(n.get('body'), n)
+        if not ok or not uses:
+            continue
+        for p_, node, how in _direct_writes(n.get('body')):
+            if r.r(node.get('lhs') if node.get('k') == 'assign' else node.get('e') or {}) == ct:
+                ok = False
+        if not ok:
+            continue
+        ename = 'elem@%s' % (v.get('dl') or n.get('l'))
+        et = uses[0].get('t')
+        for u in uses:
+            keep = {'l': u.get('l'), 't': u.get('t')}
+            u.clear()
+            u.update({'k': 'ref', 'name': ename, 'dk': 'local', 'dl': v.get('dl'), 'isref': True})
+            u.update(keep)
+        n.pop('init', None)
+        n.pop('cond', None)
+        n.pop('inc', None)
+        n['k'] = 'rangefor'
+        n['range'] = cont
+        n['var'] = {'k': 'var', 'l': n.get('l'), 'dl': v.get('dl'), 'name': ename, 't': '%s &' % et, 'isref': True, 'synthetic': True}
+        changed = True
+    return changed
+
+
+def _is_zero(e):
+    from .astq import const_value
+    return const_value(e) == 0
+
+
+def _direct_writes(body):
+    from .astq import direct_writes
+    return direct_writes(body)
+
+
+def canonical_atomics(f):
+    """x.store(v) / x.load() on std::atomic are the explicit spellings of `x = v` / the implicit conversion: bring them
+       into the implicit form (default sequentially-consistent order only; an explicit weaker order is left alone)"""
+    changed = False
+    for n in walk(f.get('body')):
+        if n.get('k') != 'call' or n.get('obj') is None:
+            continue
+        cls = str(n.get('cls', ''))
+        if not (cls.startswith('std::atomic<') or cls.startswith('std::__atomic_base<')):
+            continue
+        args = n.get('args', [])
+        if any(isinstance(a, dict) and 'memory_order' in str(a.get('t', '')) and a.get('k') not in ('defaultarg',) and a.get('cv') not in (5, '5')
+               for a in args[1:] if n.get('name') == 'store') or (n.get('name') == 'load' and args and args[0].get('cv') not in (5, '5', None)):
+            continue
+        if n.get('name') == 'store' and len(args) >= 1:
+            obj, val = n['obj'], args[0]
+            keep = {'l': n.get('l'), 't': val.get('t') if isinstance(val, dict) else n.get('t')}
+            n.clear()
+            n.update({'k': 'opcall', 'op': '=', 'fn': '%s::operator=' % cls, 'cls': cls, 'args': [obj, val], 'was': 'store'})
+            n.update(keep)
+            changed = True
+        elif n.get('name') == 'load':
+            obj = n['obj']
+            t = n.get('t')
+            keep = {'l': n.get('l'), 't': t}
+            n.clear()
+            n.update({'k': 'call', 'fn': '%s::operator %s() const' % (cls, t), 'name': 'operator %s' % t, 'cls': cls, 'obj': obj, 'args': [],
+                      'was': 'load'})
+            n.update(keep)
+            changed = True
+    return changed
+
+
+def annotate_range_elements(f):
+    """references to the element variable of `for (auto& e : C)` carry C, so that an access through e is seen as an
+       access to an element of C (astq.field_chain)"""
+    for n in walk(f.get('body')):
+        if n.get('k') != 'rangefor' or not isinstance(n.get('var'), dict):
+            continue
+        v = n['var']
+        if not (v.get('isref') or str(v.get('t', '')).rstrip().endswith('*')):
+            continue
+        key = (v.get('name'), v.get('dl'))
+        for x in walk(n.get('body')):
+            if x.get('k') == 'ref' and x.get('dk') == 'local' and (x.get('name'), x.get('dl')) == key and v.get('isref'):
+                x['elem_of'] = n.get('range')
+
+
 # ---------------------------------------------------------------------------------------------- driver
 
 def normalize(facts):
@@ -617,9 +825,18 @@ def normalize(facts):
                     facts.get('func_units', {}).pop(fid, None)
                 else:
                     report['kept_helpers'].append(fid)
+    report['while_loops'] = 0
     for fid, f in F.items():
-        if f.get('file', '').startswith(('src/', 'include/')) and substitute_aliases(f):
-            report['alias_functions'] += 1
+        if f.get('file', '').startswith(('src/', 'include/')):
+            if substitute_aliases(f):
+                report['alias_functions'] += 1
+            if while_to_for(f):
+                report['while_loops'] += 1
+            if index_to_rangefor(f):
+                report['index_loops'] = report.get('index_loops', 0) + 1
+            if canonical_atomics(f):
+                report['atomics'] = report.get('atomics', 0) + 1
+            annotate_range_elements(f)
     facts['normalize'] = report
     return report
 
